@@ -32,6 +32,7 @@ RULE += (
     'revisited, occasionally a transposed shape / other nthread / other npartition in between); every call of the sequence goes through the region recorder with particles on the '
     'stripe boundaries of the partition that call actually used, and an accepted call whose concurrent stripes share a cell is a violation whatever was called before it.'
 )
+RULE += ' Added after seeded round 11: a call rejected by the validation (odd / too-large npartition with nthread>1), then a valid call (default or user npartition) with particles in every cell along the partition axis under the region recorder, compared with the single-threaded deposit.'
 ASSUMPTIONS = [
     'iterations of one numba prange region may run concurrently in any interleaving when nthread>1; regions are separated by a barrier; with nthread==1 nothing is concurrent',
     'the interpreted bodies are the same code objects as the compiled kernels (re-bound globals only)',
@@ -289,6 +290,77 @@ def history_sweep(run, tsc):
     run.sample(dict(history_example=seqs[0]))
 
 
+def after_rejection_sweep(run, tsc):
+    """A call that the validation REJECTS, then valid calls (default and user-supplied npartition) in the same process.  The valid call
+    is made once, directly, with a full-coverage particle set (particles in every cell along the partition axis, so every stripe
+    writes every row its clouds can reach, whatever partition the code ends up using) under the region recorder; and compared with the
+    single-threaded deposit.  Only the later valid call decides; a 'rejected' call that does not raise is just counted."""
+    rng = run.rng(4)
+    n = 0
+    with mas.TscRaceMonitor(tsc) as mon:
+        for rep in range(40 if run.quick else 1500):
+            n1d = int(rng.choice([12, 16, 20, 24, 32, 40, 48, 64]))
+            coord = int(rng.integers(0, 3))
+            shape = [6, 6, 6]
+            shape[coord] = n1d
+            if rep % 3 == 0:
+                shape[(coord + 1) % 3] = int(rng.choice([4, 2 * n1d]))
+            shape = tuple(shape)
+            nthread = int(rng.choice([2, 3, 4, 8, 16, -1]))
+            dtype = [np.float32, np.float64][rep % 2]
+            box = [1.0, 123.0, 2000.0][rep % 3]
+            bad = [n1d // 4 + 1 + int(rng.integers(0, 4)), n1d // 2, n1d, 3, 5, n1d // 4 + 2 | 1][int(rng.integers(0, 6))]
+            bad = max(bad, 3)
+            later = [None, None, 2, 2 * max(1, n1d // 8)][int(rng.integers(0, 4))]
+            # full coverage: sub-cell positions 0.01, 0.5, 0.99 of every cell along coord, random elsewhere
+            cells = np.repeat(np.arange(n1d), 3) + np.tile([0.01, 0.5, 0.99], n1d)
+            pos = rng.uniform(0, 1, (len(cells), 3)) * box
+            pos[:, coord] = cells * box / n1d
+            pos = np.minimum(pos, np.nextafter(box, 0)).astype(dtype)
+            pos = pos[rng.permutation(len(pos))]
+            rejected = []
+            for k in range(int(rng.integers(1, 3))):
+                try:
+                    with warnings.catch_warnings():
+                        warnings.simplefilter('ignore')
+                        tsc.tsc_parallel(pos[:5].copy(), np.zeros(shape), box, nthread=nthread, wrap=False, npartition=bad + 2 * k, coord=coord)
+                    run.count('expected_rejection_did_not_raise')
+                except ValueError:
+                    run.count('rejected_calls_before_valid_ones')
+                    rejected.append(bad + 2 * k)
+                except IndexError:
+                    run.count('index_error_in_interpreted_body')
+            run.ev()
+            grid = np.zeros(shape)
+            conf = dict(n1d=n1d, nthread=nthread, npartition=later, coord=coord, box=box, dtype=np.dtype(dtype).str, grid_shape=list(shape), rejected_calls_before=rejected)
+            try:
+                with warnings.catch_warnings():
+                    warnings.simplefilter('ignore')
+                    tsc.tsc_parallel(pos.copy(), grid, box, nthread=nthread, wrap=False, npartition=later, coord=coord, sort=bool(rep % 2))
+            except ValueError as e:
+                run.violation('valid-call-rejected-after-rejected-call', dict(conf=conf, error=str(e)[:200]))
+                continue
+            n += 1
+            used = len(mon.last_starts) - 1
+            conf['npartition_used'] = used
+            run.nt(('after-rejection', n1d, nthread, later, coord))
+            conflicts = mon.rec.conflicts() if getattr(mon, 'effective_threads', 2) > 1 else []
+            if conflicts:
+                harmful = [c for c in conflicts if any(c['nonzero'].values())]
+                c0 = (harmful or conflicts)[0]
+                run.violation('unsafe-stripes-after-rejected-call', dict(conf=conf, n_conflicting_cells=len(conflicts), n_with_nonzero_addend=len(harmful), example=c0, stripe_width_cells=n1d / used))
+                if run.too_many():
+                    return
+                continue
+            ref = np.zeros(shape)
+            with warnings.catch_warnings():
+                warnings.simplefilter('ignore')
+                tsc.tsc_parallel(pos.copy(), ref, box, nthread=1, wrap=False, npartition=1, coord=coord)
+            if not np.allclose(grid, ref, rtol=1e-9, atol=1e-9 * max(1.0, float(np.abs(ref).max()))):
+                run.violation('parallel-differs-from-serial-after-rejected-call', dict(conf=conf, max_abs_diff=float(np.abs(grid - ref).max())))
+    run.count('valid_calls_after_rejected_ones', n)
+
+
 def acceptance_sweep(run, tsc):
     rng = run.rng(1)
     with mas.TscRaceMonitor(tsc) as mon:
@@ -489,6 +561,7 @@ def check(run):
         stress(run, tsc)
     if not run.too_many():
         history_sweep(run, tsc)  # after all earlier workload (own random stream)
+        after_rejection_sweep(run, tsc)  # rejected call, then valid calls (own random stream)
     if run.counters.get('accepted', 0) == 0 or run.counters.get('cells_recorded', 0) == 0:
         run.note_inconclusive('race monitor recorded nothing')
 
